@@ -1241,8 +1241,8 @@ macro_rules! part_calls {
 macro_rules! part_grid2 {
     ($f:ident, $p:expr, $x:expr) => {
         part_calls!($f, $p, $x, 5;
-            (0, false, false), (0, true, true), (1, false, true), (1, true, false), (2, false, false),
-            (2, true, true), (4, false, true), (4, true, false));
+            (0, false, false), (0, true, true), (0, false, true), (1, false, true), (1, true, false), (2, false, false),
+            (2, true, true), (4, false, true), (4, true, false));   // (0, false, true): unsorted descending with more valid elements than kth+1 (seeded change C09-m4)
     };
 }
 /// the other half of the (sort, rev) grid at len 2
